@@ -78,11 +78,15 @@ pub enum SendOutcome {
 
 #[derive(Debug)]
 pub enum RecvOutcome {
-    Decoded { consumed: usize, remainder_empty: bool, suffix_ok: bool },
+    Decoded { consumed: usize, remainder_empty: bool, suffix_ok: bool, debug: Option<String> },
     Failed(String),
     RequiredPanic(String),
     Violation(LawViolation),
 }
+
+/// When set, decode outcomes carry the `Debug` rendering of the decoded value (tier D
+/// compares behaviour of two generated modules event by event).
+pub static RECORD_DEBUG: std::sync::atomic::AtomicBool = std::sync::atomic::AtomicBool::new(false);
 
 pub type Spoiler<T> = Box<dyn Fn(&mut T) + Send + Sync>;
 
@@ -381,7 +385,7 @@ fn recv_laws<T: Packet + Debug + Clone + PartialEq + Default>(s: &[u8], depth: u
                     _ => {}
                 }
             }
-            RecvOutcome::Decoded { consumed, remainder_empty: rem.is_empty(), suffix_ok }
+            RecvOutcome::Decoded { consumed, remainder_empty: rem.is_empty(), suffix_ok, debug: if RECORD_DEBUG.load(std::sync::atomic::Ordering::Relaxed) { Some(format!("{:?}", p)) } else { None } }
         }
         Err(e) => {
             match &m {
